@@ -69,12 +69,21 @@ def _pos_in_target(target, name):
   return None
 
 
+def all_raise_cfg(fn):
+  """CFG in which every statement of a try body may raise into its handlers (so that code in
+  `except` blocks is reachable for reaching-definition queries)."""
+  if not hasattr(fn, "_c_all_raise_cfg"):
+    from ..cfg import CFG
+    fn._c_all_raise_cfg = CFG(fn.node, may_raise=lambda node: True)
+  return fn._c_all_raise_cfg
+
+
 class Flow(object):
-  def __init__(self, fn, passthrough=True):
+  def __init__(self, fn, passthrough=True, cfg=None):
     self.fn = fn
-    self.cfg = fn.cfg
+    self.cfg = cfg or fn.cfg          # e.g. all_raise_cfg(fn) to make except handlers reachable
     self.passthrough = passthrough    # see through sorted()/list()/... (same elements)
-    self.du = DefUse(fn)
+    self.du = DefUse(fn, self.cfg)
     self.defs = {}      # statement-level bindings only (comprehension targets do not leak)
     for n in self.cfg.nodes:
       if n.stmt is None:
@@ -521,6 +530,7 @@ def who_may_emit(run, w, RID, why):
   """One obligation per gateway call site that may carry a record action with values."""
   names = set(w.doc_action_names())
   sites = 0
+  undecided = []
   for fi in w.repo.all_functions():
     fn = w.fn_of(fi)
     gw = [(n, c, nm) for (n, c, nm) in fn.calls() if E.is_gateway_call(c, nm, fn)]
@@ -537,10 +547,14 @@ def who_may_emit(run, w, RID, why):
         raise AnalysisError("%s: no origin for gateway argument %s" % (fi.qualname, short(arg)))
       verdicts = []
       relevant = False
-      for r in roots:
-        v, rel = _classify_root(w, fn, flow, r, names, extra)
-        verdicts.append((v, r))
-        relevant = relevant or rel
+      try:
+        for r in roots:
+          v, rel = _classify_root(w, fn, flow, r, names, extra)
+          verdicts.append((v, r))
+          relevant = relevant or rel
+      except AnalysisError as e:
+        undecided.append(e)       # this site cannot be followed; the others still report
+        continue
       if not relevant:
         continue      # only schema / removal actions: no cell values carried
       sites += 1
@@ -550,6 +564,8 @@ def who_may_emit(run, w, RID, why):
              "convert_action_values (so every column's prepare_new_values ran) or from an "
              "enumerated raw source; " + why, not bad,
              witness="; ".join("%s" % (v,) for (v, r) in bad) or None, fi=fi, node=c)
+  if undecided:
+    raise undecided[0]
   return sites
 
 
@@ -678,7 +694,31 @@ def _classify_root(w, fn, flow, r, names, extra, depth=0):
       if endswith(nm, suffix) and not r.path:
         return (True if _only_called_from(w, fn.fi, funcs)
                 else "%s used outside %s" % (suffix, sorted(funcs))), True
-    return "action produced by unrecognised call %s" % (nm or short(r.node)), True
+    # a helper of the same class / module that hands the action back: decided on what it returns
+    target = None
+    f = r.node.func
+    if isinstance(f, ast.Attribute) and isinstance(f.value, ast.Name) and f.value.id == "self" \
+        and fn.fi.cls is not None:
+      target = w.repo.find_method(fn.fi.cls, f.attr)
+    elif isinstance(f, ast.Name):
+      target = fn.fi.module.functions.get(f.id)
+    if target is not None and depth < 2 and target.qualname != fn.fi.qualname:
+      tfn = w.fn_of(target)
+      tflow = _flow_of(tfn)
+      verdict, rel = True, False
+      rets = [n for n in tfn.cfg.nodes if n.kind == "return" and n.stmt.value is not None]
+      if not rets:
+        raise AnalysisError("%s: %s returns nothing, cannot follow the emitted action"
+                            % (q, target.qualname))
+      for n in rets:
+        for r2 in tflow.roots(n.stmt.value, n.id):
+          v2, rel2 = _classify_root(w, tfn, tflow, r2.plus(*r.path), names, extra, depth + 1)
+          rel = rel or rel2
+          if v2 is not True:
+            verdict = v2
+      return verdict, rel
+    raise AnalysisError("%s: cannot follow the action produced by %s"
+                        % (q, nm or short(r.node)))
   if r.kind == "param":
     if q.endswith("._do_extra_doc_action") and not r.path:
       return True, True
@@ -692,8 +732,8 @@ def _classify_root(w, fn, flow, r, names, extra, depth=0):
         except AnalysisError:
           b = {}
         if r.node not in b:
-          return "cannot follow parameter %s of %s to its call in %s" % (r.node, q,
-                                                                         cfn.qualname), True
+          raise AnalysisError("cannot follow parameter %s of %s to its call in %s"
+                              % (r.node, q, cfn.qualname))
         cflow = _flow_of(cfn)
         for r2 in cflow.roots(b[r.node], cn.id):
           v2, rel2 = _classify_root(w, cfn, cflow, r2.plus(*r.path), names, extra, depth + 1)
@@ -701,9 +741,10 @@ def _classify_root(w, fn, flow, r, names, extra, depth=0):
           if v2 is not True:
             verdict = v2
       return verdict, rel
-    return "action is the parameter %s of a function that is not a gateway" % r.node, True
+    raise AnalysisError("%s: the emitted action is the parameter %s and no call site of the "
+                        "function could be followed" % (q, r.node))
   if r.kind == "lit" and r.path and r.path[0][0] == "elem":
-    return "unresolved list element", True
+    raise AnalysisError("%s: cannot follow an element of a list literal to the gateway" % q)
   if r.kind == "const" and r.node.value is None:
     return True, False
   if r.kind == "empty":
@@ -1393,3 +1434,114 @@ def _boolean_valued(e):
       (isinstance(e, ast.Constant) and isinstance(e.value, bool)) or \
       (isinstance(e, ast.Call) and dotted(e.func) in ("bool", "isinstance", "any", "all")) or \
       (isinstance(e, ast.IfExp) and _boolean_valued(e.body) and _boolean_valued(e.orelse))
+
+
+# ---------------------------------------------------------------------------------------------
+# more role readers (round 2)
+
+def namedtuple_fields(w, class_qualname):
+  """Field names of `class X(namedtuple('X', (...)))` / `X = namedtuple('X', (...))`, read from
+  the code; AnalysisError when the definition is not of that form."""
+  ci = w.repo.classes.get(class_qualname)
+  spec = None
+  if ci is not None:
+    for b in ci.node.bases:
+      if isinstance(b, ast.Call) and endswith(dotted(b.func), "namedtuple") and len(b.args) == 2:
+        spec = b.args[1]
+  else:
+    modname, _, name = class_qualname.rpartition(".")
+    mod = w.repo.modules.get(modname)
+    v = mod.assigns.get(name) if mod is not None else None
+    if isinstance(v, ast.Call) and len(v.args) == 2 and \
+        endswith(dotted(v.func), "namedtuple", "namedtuple_eq"):
+      spec = v.args[1]
+  if isinstance(spec, (ast.Tuple, ast.List)) and \
+      all(isinstance(e, ast.Constant) and isinstance(e.value, str) for e in spec.elts):
+    return [e.value for e in spec.elts]
+  if isinstance(spec, ast.Constant) and isinstance(spec.value, str):
+    return spec.value.replace(",", " ").split()
+  raise AnalysisError("%s is not a namedtuple with literal fields" % class_qualname)
+
+
+def field_step(step, fields):
+  """Projection step normalised to ('idx', i) for a namedtuple with the given fields."""
+  if step[0] == "attr" and step[1] in fields:
+    return ("idx", fields.index(step[1]))
+  return step
+
+
+def callable_of(w, fn, expr, flow=None):
+  """(parameter names, [returned value expressions]) of the function an expression denotes: a
+  lambda, a method of the same class given as self.<name>, a function of the same module (or an
+  enclosing / nested def) given by name -- possibly through a local. None when it cannot be
+  resolved. The values are those of every return (locals of the callee inlined)."""
+  e = expr
+  if flow is not None and isinstance(e, ast.Name):
+    e = resolve(flow, e)
+  if isinstance(e, ast.Lambda):
+    return [a.arg for a in e.args.args], [e.body]
+  target = None
+  skip = 0
+  if isinstance(e, ast.Attribute) and isinstance(e.value, ast.Name) and e.value.id == "self" and \
+      fn.fi.cls is not None:
+    target = w.repo.find_method(fn.fi.cls, e.attr)
+    skip = 1
+  elif isinstance(e, ast.Name):
+    cur = fn.fi
+    while cur is not None and target is None:
+      target = w.repo.funcs.get(cur.qualname + "." + e.id)
+      cur = cur.parent
+    if target is None:
+      target = fn.fi.module.functions.get(e.id)
+  if target is None:
+    return None
+  tfn = w.fn_of(target)
+  tflow = Flow(tfn)
+  vals = []
+  for case in return_cases(tfn.node):
+    if case.value is None:
+      return None
+    vals.append(inline(tflow, case.value))
+  if not vals:
+    return None
+  return target.params()[skip:], vals
+
+
+def uses_of(fn, flow, is_origin):
+  """[(Name node, cfg node id)] of the loads of local names every origin of which satisfies
+  is_origin(Root): where a value obtained from a recognised source is used."""
+  out = []
+  for n in flow.cfg.nodes:
+    for e in n.exprs:
+      for x in walk_no_nested(e, into_lambda=True):
+        if isinstance(x, ast.Name) and isinstance(x.ctx, ast.Load) and x.id in flow.defs:
+          try:
+            rs = flow.roots(x, n.id)
+          except AnalysisError:
+            continue
+          if rs and all(is_origin(r) for r in rs):
+            out.append((x, n.id))
+  return out
+
+
+def handed_to_unknown(fn, flow, uses, known=()):
+  """Text of a call (other than the `known` Call nodes) that receives one of the uses as an
+  argument -- the value is passed on to code the rule does not read; None when there is none."""
+  par = {}
+  for n in ast.walk(fn.node):
+    for ch in ast.iter_child_nodes(n):
+      par[id(ch)] = n
+  for (x, nid) in uses:
+    cur = x
+    while id(cur) in par:
+      up = par[id(cur)]
+      if isinstance(up, ast.Call) and \
+          not (known(up) if callable(known) else any(up is k for k in known)) and \
+          (any(cur is a for a in up.args) or any(cur is k.value for k in up.keywords)):
+        d = dotted(up.func)
+        if d not in PASSTHROUGH and d not in ("len", "bool", "isinstance", "enumerate", "zip"):
+          return short(up)
+      if isinstance(up, ast.stmt):
+        break
+      cur = up
+  return None
